@@ -24,7 +24,7 @@ type C12MW struct {
 }
 
 type C12Step struct {
-	Kind  string `json:"kind"` // req | req_mutating_handler | req_then_scribble_request | dup | scribble_input | scribble_config_result | keep_config_result | scribble_kept | flip_scalars | reconf_again | reconf_other
+	Kind  string `json:"kind"` // req | req_mutating_handler | req_then_scribble_request | dup | scribble_input | scribble_config_result | keep_config_result | scribble_kept | flip_scalars | reconf_again | reconf_other | edit_passed_and_reconfigure
 	MW    int    `json:"mw"`
 	Req   int    `json:"req,omitempty"`   // index into the middleware's probe suite (mod len)
 	Alien bool   `json:"alien,omitempty"` // take the request from ANOTHER middleware's suite
@@ -65,7 +65,7 @@ func (c12) Parties() map[string]string {
 	return map[string]string{"cors.Middleware and internals": "real", "adversarial application code (caller of NewMiddleware/Reconfigure/Config, wrapped handler)": "stub (fault injector)", "clients": "stub", "ResponseWriter": "stub (recording)"}
 }
 func (c12) FaultKinds() []string {
-	return []string{"F4_scribble_input_config", "F4_scribble_config_result", "F4_scribble_kept_config_result", "F4_flip_scalars", "F4_handler_scribbles_request_headers", "F4_handler_scribbles_response_headers", "F4_handler_mutates_header_maps", "F4_caller_scribbles_request_after_return", "F6_duplicate_request"}
+	return []string{"F4_scribble_input_config", "F4_scribble_config_result", "F4_scribble_kept_config_result", "F4_flip_scalars", "F4_handler_scribbles_request_headers", "F4_handler_scribbles_response_headers", "F4_handler_mutates_header_maps", "F4_caller_scribbles_request_after_return", "F4_passed_config_edited_in_place_and_reused", "F6_duplicate_request"}
 }
 func (c12) Probes() []string {
 	return []string{"shared_config_value", "handler_saw_acao_alias", "alien_request", "three_middlewares", "suite_compared", "reconfigure_again_same_config", "reconfigure_to_other_config_vs_fresh"}
@@ -90,7 +90,7 @@ func (c12) Gen(r *R, tier string) any {
 	if tier == "thorough" && r.P(0.3) {
 		steps = r.Range(40, 90)
 	}
-	kinds := []string{"req", "req", "req_mutating_handler", "req_mutating_handler", "req_then_scribble_request", "dup", "scribble_input", "scribble_config_result", "keep_config_result", "scribble_kept", "flip_scalars", "reconf_again", "reconf_other"}
+	kinds := []string{"req", "req", "req_mutating_handler", "req_mutating_handler", "req_then_scribble_request", "dup", "scribble_input", "scribble_config_result", "keep_config_result", "scribble_kept", "flip_scalars", "reconf_again", "reconf_other", "edit_passed_and_reconfigure"}
 	for i := 0; i < steps; i++ {
 		p.Steps = append(p.Steps, C12Step{Kind: pick(r, kinds), MW: r.Intn(k), Req: r.Intn(1 << 16), Alien: r.P(0.2), Val: r.Intn(64)})
 	}
@@ -304,6 +304,41 @@ func (c12) Exec(plan any, c *Ctx) *Violation {
 					c.Nontrivial = true
 				}
 				step += " " + q.String()
+			case "edit_passed_and_reconfigure":
+				// the most natural caller flow: keep ONE Config value around, edit it IN
+				// PLACE (same backing arrays where they are big enough) to say what
+				// configuration j says, and pass the very same pointer to Reconfigure
+				// again. The result must equal a fresh middleware of configuration j.
+				j := st.Req % len(p.Cfgs)
+				target := p.Cfgs[j].Config()
+				fresh, ferr := cors.NewMiddleware(p.Cfgs[j].Config())
+				if ferr != nil {
+					abandon = true
+					return
+				}
+				pc := x.passed
+				pc.Origins = append(pc.Origins[:0], target.Origins...)
+				pc.Methods = append(pc.Methods[:0], target.Methods...)
+				pc.RequestHeaders = append(pc.RequestHeaders[:0], target.RequestHeaders...)
+				pc.ResponseHeaders = append(pc.ResponseHeaders[:0], target.ResponseHeaders...)
+				pc.Credentialed, pc.MaxAgeInSeconds, pc.ExtraConfig = target.Credentialed, target.MaxAgeInSeconds, target.ExtraConfig
+				if err := x.m.Reconfigure(pc); err != nil {
+					panic("a configuration NewMiddleware accepts was rejected by Reconfigure: " + err.Error())
+				}
+				dbg := p.MWs[st.MW%len(mws)].Debug
+				x.m.SetDebug(dbg)
+				fresh.SetDebug(dbg)
+				x.cfgIdx = j
+				x.suite = probeSuite(p.Cfgs[j])
+				fi := 0
+				fsrv := fresh.Wrap(constHandler{&fi})
+				x.base = make([]Resp, len(x.suite))
+				for k, q := range x.suite {
+					x.base[k] = serveWith(fsrv, q, nil, &fi)
+				}
+				x.baseCfg = fresh.Config()
+				c.hit("F4_passed_config_edited_in_place_and_reused")
+				c.Nontrivial = true
 			case "reconf_other":
 				// Reconfigure to ANOTHER configuration of the plan: from now on this
 				// middleware, with everything it has served and suffered so far, must be
